@@ -180,8 +180,12 @@ _PROG = [None]
 
 def _prep(ci, fn):
     """helpers expanded, single-definition locals replaced: the rules below see one shape of the code"""
-    from ..inline import prep, class_lookup
-    return prep(fn, class_lookup(_PROG[0], ci)) if fn is not None and _PROG[0] is not None else fn
+    from ..inline import prep, class_lookup, inline_trivial_properties
+    if fn is None or _PROG[0] is None:
+        return fn
+    p = prep(inline_trivial_properties(fn, _PROG[0], ci), class_lookup(_PROG[0], ci))
+    q = inline_trivial_properties(p, _PROG[0], ci)        # reads through a property inside an expanded helper
+    return prep(q) if q is not p else p
 
 
 def _setter(run, ci, pname, s):
@@ -461,6 +465,9 @@ def _observe(run, ci, m):
 
 
 def _getitem(run, ci, m):
+    m = _prep(ci, m)
+    from ..inline import append_helper_bodies, class_lookup
+    m = append_helper_bodies(m, class_lookup(_PROG[0], ci))
     where = (ci.mod.relpath, m.lineno)
     param = m.args.args[1].arg
     run.subject('C15-R4')
@@ -498,7 +505,10 @@ def _getitem(run, ci, m):
               and isinstance(n.value.value, ast.Name) and norm(n.value.slice) == '0']:
         lst = n_id = r.value.value.id
         f = facts(guards_of(m, r) or [])
-        if ('len(%s)' % lst, '==', '1') in f:
+        ln = 'len(%s)' % lst
+        upper = (ln, '<=', '1') in f or (ln, '<', '2') in f
+        lower = (ln, '!=', '0') in f or (ln, '>', '0') in f or (ln, '>=', '1') in f
+        if (ln, '==', '1') in f or (upper and lower):
             run.ok('C15-R4', '%s.__getitem__ unique name' % ci.name, 'return %s[0] under len == 1' % lst)
         else:
             run.fail('C15-R4', _key(ci, '__getitem__', 'unique'), *where,
